@@ -2,9 +2,10 @@
 
     [rotate_old]: the code as pinned (middle branch: cosphi = x / sqrt(x^2+y^2),
     sinphi = sqrt(1 - cosphi^2) -- findings F10 and "NaN for z-aligned rot").
-    [rotate_new]: the repaired code (middle branch taken when x^2 + y^2 > 0,
+    [rotate_new]: a CANDIDATE REPAIR, not in the tree (tried upstream, withdrawn
+    because an existing geometry test pins sampled directions; middle branch taken when x^2 + y^2 > 0,
     cosphi = x * inv_rho, sinphi = y * inv_rho, else (1, 0)).
-    Base/Vec3.v [rotate] is whichever of the two the current source is
+    Base/Vec3.v [rotate] is the current source (= [rotate_old])
     (C20/RotateProofs.v, lemma [rotate_base_eq]).  Executable; no proofs. *)
 From Coq Require Import ZArith List.
 From Celer Require Import Base.Num Base.Vec3.
